@@ -1,3 +1,33 @@
 pub mod add_extension;
 pub mod box_clone_layer;
 pub(crate) mod timeout;
+
+/// Verification hooks: the (crate-private) timeout services.
+#[cfg(bmwill_anemo_verif)]
+pub mod verif {
+    use crate::{Request, Response};
+    use bytes::Bytes;
+    use std::time::Duration;
+    use tower::Service;
+
+    pub fn inbound_timeout<S>(
+        inner: S,
+        default_timeout: Option<Duration>,
+    ) -> impl Service<Request<Bytes>, Response = Response<Bytes>, Error = S::Error>
+    where
+        S: Service<Request<Bytes>, Response = Response<Bytes>>,
+    {
+        super::timeout::inbound::Timeout::new(inner, default_timeout)
+    }
+
+    pub fn outbound_timeout<S>(
+        inner: S,
+        default_timeout: Option<Duration>,
+    ) -> impl Service<Request<Bytes>, Response = S::Response, Error = crate::Error>
+    where
+        S: Service<Request<Bytes>>,
+        S::Error: Into<crate::Error>,
+    {
+        super::timeout::outbound::Timeout::new(inner, default_timeout)
+    }
+}
